@@ -87,7 +87,15 @@ ExprN == [Expr EXCEPT !.a = IF mode = "sv" THEN Lit ELSE SumByN(1, <<97>>),
                       !.b = IF mode = "vs" THEN Lit ELSE IF mode = "sv" THEN SumByN(1, <<97>>) ELSE SumByN(2, <<98>>)]
 CaseN == [in |-> [recs |-> RecsOf(A, <<97>>, Zs, 0) \o RecsOf(B, <<98>>, Zs, 10) \o RecsOf(B, <<98>>, Zs, 40), expr |-> ExprN,
                   evals |-> << [start |-> Base + 35, end |-> Base + 95, step |-> 30] >>, reps |-> 1]]
+\* comparisons over samples that are NaN (x % 0): only != holds, whichever side the NaN is on and also between two NaNs
+Lit0 == [t |-> "lit", id |-> 0, op |-> "", v |-> <<0, 1>>, bool |-> FALSE, k |-> 0, paren |-> FALSE]
+NaNWrap(e) == [t |-> "binop", id |-> 0, op |-> "mod", bool |-> FALSE, k |-> 0, v |-> <<0, 1>>, paren |-> TRUE, a |-> e, b |-> Lit0]
+ExprNaN == [Expr EXCEPT !.a = IF mode = "sv" THEN Lit ELSE NaNWrap(SumBy(RangeOf(1, <<97>>))),
+                        !.b = IF mode = "vs" THEN Lit ELSE IF mode = "sv" THEN NaNWrap(SumBy(RangeOf(1, <<97>>))) ELSE NaNWrap(SumBy(RangeOf(2, <<98>>)))]
+CaseNaN == [Case EXCEPT !.in.expr = ExprNaN]
+NaNOnlyUnequal == \A o \in CmpOps, x \in {NaNV, One} : Holds(o, NaNV, x) = (o = "neq") /\ Holds(o, x, NaNV) = (o = "neq")
 Export == pc = "eval" /\ pc' = "done" /\ UNCHANGED <<A, B, mode, op, bool, scalar>> /\ PrintT(<<"CASE", ToJson(Case)>>)
           /\ (mode = "vv" => PrintT(<<"CASE", ToJson(CaseN)>>))
+          /\ (op \in CmpOps => PrintT(<<"CASE", ToJson(CaseNaN)>>))
 Next == Choose \/ Export
 =============================================================================
